@@ -349,6 +349,8 @@ class Interp:
             m = self.p.find_member(fv.cls, '__call__')
             if m:
                 return self.invoke(m, [fv] + list(args), kwargs)
+        if fv is None or is_str(fv) or is_int(fv) or is_bool(fv) or isinstance(fv, (PList, PDict, tuple)):
+            raise PyExc('TypeError', 'object is not callable', True)
         raise Unsupported('call of %r' % (fv,))
 
     def call_name(self, qualname, *args, **kwargs):
